@@ -6,7 +6,7 @@ import PySMT.Proofs.C11Fresh
 # C11 — final statements (in terms of `eval … = .b true`), and their instances for the
 definition-variable / constant tables produced by the model of `new_fresh_symbol`.
 -/
-namespace PySMT.C11
+namespace PySMT.C11.Proofs
 open PySMT.CNF
 
 /-- hypotheses about the definition symbols: `u` inverts `key` on the sub-formulas that receive a
@@ -154,4 +154,4 @@ theorem allTrue_wf : allTrue.WF := by
     subst hv
     exact defaultVal_hasSort t
 
-end PySMT.C11
+end PySMT.C11.Proofs
